@@ -33,6 +33,42 @@ RULE = ("exhaustive grid: every constraint kind x bounds 0..B x n 0..N through t
 EXHAUSTIVE = True
 
 
+def extra_obligations():
+    """Regenerate the Lean transcription of the assert_satisfaction / __post_init__ bodies from /repo's CURRENT source
+    and have the kernel re-check that it equals the hand-written model (a second, translator-based tie)."""
+    import re
+    import subprocess
+    import core
+    sys_path_repo = core.REPO
+    names = ["KrroodVerif.Quant.Translated.C09_assert_translated_eq_model",
+             "KrroodVerif.Quant.Translated.C09_post_init_translated_eq_model"]
+    from translate.c09_translate import generate as gen, TranslationError
+    try:
+        text = gen(sys_path_repo)
+    except (TranslationError, SyntaxError, OSError) as e:
+        return [{"name": n, "ok": False, "detail": f"translator rejected the source: {e}"} for n in names]
+    tmp = core.LEAN_DIR / ".lake" / "audit"
+    tmp.mkdir(parents=True, exist_ok=True)
+    f = tmp / f"C09Translated_{__import__('os').getpid()}.lean"
+    f.write_text(text + "".join(f"#print axioms {n}\n" for n in names))
+    try:
+        p = subprocess.run(["lake", "env", "lean", str(f)], cwd=str(core.LEAN_DIR), capture_output=True, text=True, timeout=600)
+    finally:
+        try:
+            f.unlink()
+        except OSError:
+            pass
+    out = " ".join(((p.stdout or "") + (p.stderr or "")).split())
+    res = []
+    for n in names:
+        m = re.search(r"'" + re.escape(n) + r"' depends on axioms: \[([^\]]*)\]", out)
+        none = re.search(r"'" + re.escape(n) + r"' does not depend on any axioms", out)
+        ax = [a.strip() for a in m.group(1).split(",")] if m else ([] if none else None)
+        ok = p.returncode == 0 and ax is not None and set(ax) <= core.ALLOWED_AXIOMS
+        res.append({"name": n, "ok": ok, "axioms": ax, "detail": (p.stdout or "")[-2000:] + (p.stderr or "")[-1000:]})
+    return res
+
+
 def budget(tier: str) -> int:
     return 200 if tier == "quick" else 3000
 
